@@ -49,3 +49,66 @@ Theorem C06_non_object : forall tb cs c enc l,
   (forall r, skip_ws l <> "{"%char :: r) -> emit tb cs c enc l = [].
 Proof. intros. unfold emit. now rewrite non_object_skipped. Qed.
 Print Assumptions C06_non_object.
+
+(* ---------- the whole command: the same bytes through every channel ---------- *)
+(* Model/Job.v is the Run function of main.go end to end (validation, output-file creation, key step, input channel,
+   stream processor). For a local job without encryption whose output can be created and whose writes are accepted:
+   exit status 0, and the destination - standard output or the --outputFile - holds exactly [stream data], whatever
+   channel delivered [data] (a plain file, a gzip file recognised by its suffix in any letter case, or stdin) and
+   whatever the progress bar counted. *)
+From Model Require Import Cli KeyFile Atlas Job.
+From Proofs Require Import JobProofs.
+
+Theorem C06_job_output : forall tb cs a w m data bar,
+  plain_local a w m ->
+  (forall fs1, stage_out a w = Some fs1 -> local_input a w m fs1 = Some (data, REof, bar)) ->
+  snd (scan data REof) = SOk ->
+  j_status (job tb cs a w) = Exit0 /\ dest a (job tb cs a w) = stream tb cs (a_cfg a) None data.
+Proof. exact job_local_output. Qed.
+Print Assumptions C06_job_output.
+
+Theorem C06_job_channel_independent : forall tb cs a1 w1 m1 a2 w2 m2 data bar1 bar2,
+  plain_local a1 w1 m1 -> plain_local a2 w2 m2 -> a_cfg a1 = a_cfg a2 ->
+  (forall fs1, stage_out a1 w1 = Some fs1 -> local_input a1 w1 m1 fs1 = Some (data, REof, bar1)) ->
+  (forall fs1, stage_out a2 w2 = Some fs1 -> local_input a2 w2 m2 fs1 = Some (data, REof, bar2)) ->
+  snd (scan data REof) = SOk ->
+  dest a1 (job tb cs a1 w1) = dest a2 (job tb cs a2 w2) /\
+  j_status (job tb cs a1 w1) = Exit0 /\ j_status (job tb cs a2 w2) = Exit0.
+Proof. exact job_channel_independent. Qed.
+Print Assumptions C06_job_channel_independent.
+
+(* what the three channels deliver *)
+Theorem C06_job_channels : forall a w fs1,
+  (forall p raw mode, a_file a = Some p -> fs1 p = FFile raw mode -> is_gz p = false ->
+     exists bar, local_input a w MFile fs1 = Some (raw, REof, bar)) /\
+  (forall p raw mode data, a_file a = Some p -> fs1 p = FFile raw mode -> is_gz p = true -> w_gunzip w raw = (data, REof) ->
+     exists bar, local_input a w MFile fs1 = Some (data, REof, bar)) /\
+  (forall data, w_stdin w = Some data -> local_input a w MStdin fs1 = Some (data, REof, None)).
+Proof.
+  intros a w fs1. split; [|split].
+  - intros. eapply local_input_file; eassumption.
+  - intros. eapply local_input_gz; eassumption.
+  - intros. now apply local_input_stdin.
+Qed.
+Print Assumptions C06_job_channels.
+
+(* non-vacuity, on the regenerated tables: one log through a plain file to --outputFile, through "LOG.GZ" (gunzip a
+   parameter: here it strips a one-byte wrapper) to standard output, and through stdin to standard output *)
+From Gen Require Import Tables Consts.
+From Coq Require Import ZArith.
+Example C06_job_example :
+  let line := (list_ascii_of_string "{""c"":""COMMAND"",""attr"":{""command"":{""find"":""c"",""filter"":{""a"":""secret""}}}}" ++ [nl])%list in
+  let fs0 : fsys := fun p => if String.eqb p "in.log" then FFile line 420 else if String.eqb p "LOG.GZ" then FFile ("z"%char :: line) 420 else FAbsent true in
+  let c0 := {| repl := "REDACTED"; nums := false; bools := false; ips := false; nss := false; eager := []; re := None |} in
+  let mk f o := {| a_file := f; a_out := o; a_encrypt := false; a_keyfile := "k"; a_cfg := c0; a_regexp_given := false; a_fieldnames_given := false;
+                   a_proj := ""; a_cluster := ""; a_pub := ""; a_priv := ""; a_start := 0%Z; a_end := 0%Z; a_env := false |} in
+  let w si := {| w_fs := fs0; w_stdin := si; w_rnd := []; w_encrypt := fun _ _ => None; w_gunzip := fun raw => (tl raw, REof);
+                 w_writer := fun _ => Accept; w_atlas := {| w_challenge := false; w_cluster := HReset; w_hosts := None; w_logs := [] |}; w_now := 0%Z |} in
+  let r1 := job current current_consts (mk (Some "in.log"%string) "out.txt"%string) (w None) in
+  let r2 := job current current_consts (mk (Some "LOG.GZ"%string) ""%string) (w None) in
+  let r3 := job current current_consts (mk None ""%string) (w (Some line)) in
+  j_status r1 = Exit0 /\ j_status r2 = Exit0 /\ j_status r3 = Exit0 /\
+  dest (mk (Some "in.log"%string) "out.txt"%string) r1 = j_stdout r2 /\ j_stdout r2 = j_stdout r3 /\
+  j_stdout r3 = (list_ascii_of_string "{""c"":""COMMAND"",""attr"":{""command"":{""find"":""c"",""filter"":{""a"":""REDACTED""}}}}" ++ [nl])%list /\
+  j_fs r1 "in.log"%string = FFile line 420.
+Proof. vm_compute. repeat split; reflexivity. Qed.
